@@ -57,6 +57,15 @@ CLAIMED['C03'] = dict(design='5 (C03), 2', note='trusted: MIRSE MIR semantics + 
 CLAIMED['C02'] = dict(design='5 (C02), 2', note='same encoding as C03 plus max_vocab_size truncation and prefix/suffix configs; oracle: decode(encode(s)) == s '
     'minus trailing whitespace, ids < vocab_size, decoding succeeds (valid UTF-8); vector reads with symbolic ids are if-then-else terms over '
     'the feasible entries')
+BMC_TEXT = ('bounded model checking of the thread protocol: the per-thread transition relation is generated from the MIR control-flow graph of the '
+            'worker closures, unrolled with a symbolic scheduler and decided by z3 (QF_BV) for every interleaving within the step bound; '
+            'counterexample schedules are replayed against the real threads through per-item processing delays / drop points before being reported')
+CLAIMED['C05'] = dict(design='3, 5 (C05)', engine='MIRBMC', text=BMC_TEXT, technique='solver-based bounded model checking (z3) of a transition system generated from rustc MIR',
+    note='trusted: fixed semantics of Mutex / SyncSender / Receiver / SeqCst atomics / closure-environment drop, fusion of thread-local operations, '
+    'structural premises read from Pipe::new (capacity = thread count, counter starts at 0); bounds W <= 2, n <= 3 (thorough W <= 3); W = 0 by native runs')
+CLAIMED['C09'] = dict(design='3, 5 (C09)', engine='MIRBMC', text=BMC_TEXT, technique='solver-based bounded model checking (z3) of a transition system generated from rustc MIR',
+    note='same trusted base as C05 plus: panic hook facts (installed before the first spawn, body calls process::exit) read from the MIR of Pipe::new; '
+    'consumer idle / drop at any step; upstream effectively unbounded; Buffered producer defect repaired by a fix commit')
 NOT_YET = 'check not built yet in this session (work in progress, see DESIGN.md section 6 for the order)'
 NA = {}
 
@@ -92,6 +101,8 @@ m = {
               'baseline_off_cmd': 'cd /repo && cargo test --workspace --no-fail-fast --offline',
               'source_commits': ['0908cb9'], 'add_only': True},
     'engines': [
+        {'name': 'MIRBMC', 'path': 'mirse/mirbmc.py', 'serves_properties': ['C05', 'C09'],
+         'kind_free_text': 'bounded model checker for the thread protocols: transition relation generated from the MIR CFG of the worker closures, z3 QF_BV'},
         {'name': 'MIRSE', 'path': 'mirse/', 'serves_properties': sorted(k for k in CLAIMED if CLAIMED[k].get('engine', 'MIRSE') == 'MIRSE'),
          'kind_free_text': 'path-wise symbolic executor for rustc MIR (-Zunpretty=mir dump regenerated from /repo on every run), python + z3, '
                            'semantic std models, native replay binary for counterexample confirmation and translator validation'},
